@@ -167,9 +167,13 @@ def planar_graph(draw, min_nodes=2, max_nodes=8, label_kinds=("int", "str"), fam
             i, j = draw(INT(0, n - 1)), draw(INT(0, n - 1))
             if i != j and comp[i] == comp[j]:
                 add(i, j, both=not chance(draw, directed_p))
-    if self_listed and chance(draw, 1):
-        i = draw(INT(0, n - 1))
-        nbrs[i].insert(draw(INT(0, len(nbrs[i]))), labs[i])
+    # nodes that list themselves as a neighbour (self-loops in the source data): one node in a tenth of the maps, or -
+    # self_listed = k > 1 - up to three nodes in k tenths of the maps
+    if self_listed and chance(draw, 1 if self_listed is True else int(self_listed)):
+        for _ in range(1 if self_listed is True else draw(INT(1, 3))):
+            i = draw(INT(0, n - 1))
+            if labs[i] not in nbrs[i]:
+                nbrs[i].insert(draw(INT(0, len(nbrs[i]))), labs[i])
     return [[labs[i], [locs[i][0], locs[i][1]], nbrs[i]] for i in range(n)]
 
 
@@ -407,6 +411,37 @@ def fork_case(draw, max_nodes=8, families=("simple", "distance", "simple_n")):
     if chance(draw, 5):
         c["obs_noise_ne"] = 2 * c["obs_noise"]
     return {"graph": g, "trace": t, "config": c, "gen": "fork"}
+
+
+@st.composite
+def star_case(draw, families=("simple", "simple_n", "distance", "nk")):
+    """A hub with four two-segment spokes in the axis directions and observations on the diagonals: several paths are exactly
+    equally probable (mirror images), so whatever decides among ties - creation order, listing order, hashing - shows.  The hub
+    may list itself as a neighbour (a self-loop in the source data)."""
+    kind = pick(draw, ["str", "str", "int"])
+    labs = draw(labels(9, kind))
+    r = pick(draw, [1.0, 2.0])
+    dirs = [(1.0, 0.0), (0.0, 1.0), (-1.0, 0.0), (0.0, -1.0)]
+    g = [[labs[0], [0.0, 0.0], []]]
+    for i, (dy, dx) in enumerate(dirs):
+        inner, outer = labs[1 + i], labs[5 + i]
+        g.append([inner, [dy * r, dx * r], [labs[0], outer]])
+        g.append([outer, [2 * dy * r, 2 * dx * r], [inner]])
+        g[0][2].append(inner)
+    if chance(draw, 5):
+        g[0][2].insert(draw(INT(0, 4)), labs[0])  # the hub lists itself
+    sy, sx = pick(draw, [(1, 1), (1, -1), (-1, 1), (-1, -1)])
+    t = [[0.0, 0.0] if chance(draw, 7) else [0.1 * sy, 0.1 * sx]]
+    for d in ([1.5 * r] if chance(draw, 3) else [1.5 * r, 2.0 * r]):
+        t.append([sy * d, sx * d])
+    c = draw(config(families=tuple(families), width=None, cutoffs=False))
+    c["obs_noise"] = pick(draw, [1.0, 2.0]) * r
+    c["max_dist_init"] = pick(draw, [0.5 * r, None])
+    c["max_lattice_width"] = pick(draw, [None, None, 2, 4])
+    for key in ("obs_noise_ne", "dist_noise", "dist_noise_ne"):
+        if key in c:
+            c[key] = c[key] * r
+    return {"graph": g, "trace": t, "config": c, "gen": "star"}
 
 
 @st.composite
